@@ -63,7 +63,7 @@ PROPS = {
         'explanation': 'Hoare-style contracts over an RV64 ISA specification on every instruction emitter of axcut2rv64',
     },
     'C09': {
-        'units': ['x86_memory', 'a64_memory', 'rv64_memory'],
+        'units': ['x86_memory', 'a64_memory', 'rv64_memory', 'x86_code', 'a64_code', 'rv64_code'],
         'kill_units': ['x86_memory', 'a64_memory', 'rv64_memory'],
         'aux': ['native_moves', 'native_heap'],
         'level': 'other',
@@ -74,7 +74,7 @@ PROPS = {
         'explanation': 'Proved: per-primitive exact state transformers with full frame on x86-64, AArch64, RISC-V (under A-ITE). Not decided: the whole-execution heap invariant.',
     },
     'C10': {
-        'units': ['x86_memory', 'a64_memory', 'rv64_memory'],
+        'units': ['x86_memory', 'a64_memory', 'rv64_memory', 'x86_code', 'a64_code', 'rv64_code'],
         'kill_units': ['x86_memory', 'a64_memory', 'rv64_memory'],
         'aux': ['native_heap'],
         'level': 'proof',
@@ -107,7 +107,7 @@ PROPS = {
         'explanation': 'Verus: x86-64 and AArch64 setup / cleanup / move_arguments / preamble + lemma_prologue_epilogue; caller_save_registers_info (both backends). Bounded: print_i64 call sequence for 1..20 live variables and whole-routine execution for every supported number of parameters on x86-64 and AArch64.',
     },
     'C20': {
-        'units': ['x86_routine', 'a64_routine'],
+        'units': ['x86_routine', 'a64_routine', 'x86_code', 'a64_code'],
         'kill_units': ['x86_routine', 'a64_routine'],
         'aux': ['cbmc_io', 'cbmc_driver', 'native_prints'],
         'level': 'other',
